@@ -298,14 +298,26 @@ class BaseKFACPreconditioner:
             )
             compute_inverses = False  # Cannot be computed if no layers
         if compute_inverses:
+            # Same placement as in step(): only the assigned inverse worker
+            # computes and only the gradient workers of the layer take part
+            # in the broadcast inside the gradient worker group.
             for name, layer in self._layers.values():
-                layer.compute_a_inv(damping=self.damping)
-                layer.compute_g_inv(damping=self.damping)
-                if self._assignment.broadcast_inverses():
+                if get_rank() == self._assignment.inv_worker(name, 'A'):
+                    layer.compute_a_inv(damping=self.damping)
+                if (
+                    self._assignment.broadcast_inverses()
+                    and self._assignment.is_grad_worker(name)
+                ):
                     layer.broadcast_a_inv(
                         src=self._assignment.inv_worker(name, 'A'),
                         group=self._assignment.grad_worker_group(name),
                     )
+                if get_rank() == self._assignment.inv_worker(name, 'G'):
+                    layer.compute_g_inv(damping=self.damping)
+                if (
+                    self._assignment.broadcast_inverses()
+                    and self._assignment.is_grad_worker(name)
+                ):
                     layer.broadcast_g_inv(
                         src=self._assignment.inv_worker(name, 'G'),
                         group=self._assignment.grad_worker_group(name),
